@@ -28,7 +28,7 @@ func init() { fw.Register(&c20{}) }
 func (p *c20) ID() string { return "C20" }
 
 func (p *c20) Rule() string {
-	return "case = one generated scenario (gen.Scen: 1-4 flows of every flow type over every action/router/wait type, localisation, contact, trigger, 0-6 resumes msg/wait_timeout/run_expiration/dial, session re-read from JSON at seeded waits; then, from a stream of its own: every call_resthook re-drawn over a pool of 15 resthooks covering every combination of subscriber answers (none / 2xx / 410 / 503 / connection error / non-JSON, alone and mixed, + the undefined hook), call_webhook URLs re-drawn over every answer of the fake transport, and in 60% of the scenarios references to globals / contact fields that occur nowhere else (keys zgN / zfN, 9+6 syntactic forms, defined with empty or non-empty values or left missing) PLANTED with p in {0.3,0.6,1} per slot into every free string property of every action, router and wait - those the flow spec calls templates and those it does not (say_msg.audio_url, set_run_result.category, resthook slug, names of all references, category names) - and into their translations) or one directed scenario (one flow per action type that saves a result or holds a fixed reference, on every outcome path of its fake service incl. one case per resthook of the pool, followed by a msg wait with timeout / a dial wait; plus planted-*: one scenario per action type / router / dial wait with EVERY slot planted and translated, run with an English and a Spanish contact). After every engine call that returned normally, for every run with a loaded flow: (1) every result stored in the sprint (diff of run.Results() + run_result_changed events) must have its key in Inspect().results and its non-empty category in a non-empty listed category set; (2) on a resume the exit by which the waiting step left must be in waiting_exits; (3) every fixed reference held by an executed action, every asset named by the sprint's events and attributable to a fixed reference, and every global/field named in a template of an executed action / routed router / begun dial wait (base language + the translation the run used; templates are scanned by an independent ~100-line model of the template syntax, expressions must parse) must be in dependencies; (3b, builds with the verif tag) every global/field named in a template the run is KNOWN to have evaluated - reported by the template observer runs.VerifTemplateObserver, whichever property it came from - must be in dependencies (signature names the holding property, e.g. say_msg.audio_url). Not demanded: query-group re-evaluation, static groups cleared by a status change, all_groups, expression references (name_match / email_match), the default ticket topic, templates the scanner does not model. Non-trivial = the scenario stored >= 1 result, touched >= 1 fixed asset, evaluated a template naming an asset or left a wait; distinct = SHA of (assets, trigger, resumes, options)."
+	return "case = one generated scenario (gen.Scen: 1-4 flows of every flow type over every action/router/wait type, localisation, contact, trigger, 0-6 resumes msg/wait_timeout/run_expiration/dial, session re-read from JSON at seeded waits; then, from a stream of its own: every call_resthook re-drawn over a pool of 15 resthooks covering every combination of subscriber answers (none / 2xx / 410 / 503 / connection error / non-JSON, alone and mixed, + the undefined hook), call_webhook URLs re-drawn over every answer of the fake transport, and in 60% of the scenarios references to globals / contact fields that occur nowhere else (keys zgN / zfN, 9+6 syntactic forms, defined with empty or non-empty values or left missing) PLANTED with p in {0.3,0.6,1} per slot into every free string property of every action, router and wait - those the flow spec calls templates and those it does not (say_msg.audio_url, set_run_result.category, resthook slug, names of all references, category names) - and into their translations) or one directed scenario (one flow per action type that saves a result or holds a fixed reference, on every outcome path of its fake service incl. one case per resthook of the pool, followed by a msg wait with timeout / a dial wait; plus planted-*: one scenario per action type / router / dial wait with EVERY slot planted and translated, run with an English and a Spanish contact; plus history-*: see below). One generated case in five (a stream of its own, 10% + 10%) and the history-* directed cases give the inspected flow OBJECT a history through goflow's public API before it is inspected: late-translation = the flow is loaded without its translations, inspected (+ ExtractTemplates/ExtractLocalizables in 20%), then the translations are added to the same object in place (Localization().SetItemTranslation 65% / a PO file extracted from a translated copy and imported with translation.ImportIntoFlows 35%), then the scenario runs on it and the object is inspected again; change-language = every flow with translations is read, Flow.ChangeLanguage(one of its languages) is applied, the scenario runs the marshaled result and the inspection judged is that of the in-memory flow ChangeLanguage returned (after checking that its definition equals, value for value, that of the flow the session assets read). A gap that a flow freshly read from the same definition does not have is reported as coverage-gap|inspection-stale-after:<history>|<clause>. After every engine call that returned normally, for every run with a loaded flow: (1) every result stored in the sprint (diff of run.Results() + run_result_changed events) must have its key in Inspect().results and its non-empty category in a non-empty listed category set; (2) on a resume the exit by which the waiting step left must be in waiting_exits; (3) every fixed reference held by an executed action, every asset named by the sprint's events and attributable to a fixed reference, and every global/field named in a template of an executed action / routed router / begun dial wait (base language + the translation the run used; templates are scanned by an independent ~100-line model of the template syntax, expressions must parse) must be in dependencies; (3b, builds with the verif tag) every global/field named in a template the run is KNOWN to have evaluated - reported by the template observer runs.VerifTemplateObserver, whichever property it came from - must be in dependencies (signature names the holding property, e.g. say_msg.audio_url). Not demanded: query-group re-evaluation, static groups cleared by a status change, all_groups, expression references (name_match / email_match), the default ticket topic, templates the scanner does not model. Non-trivial = the scenario stored >= 1 result, touched >= 1 fixed asset, evaluated a template naming an asset or left a wait; distinct = SHA of (assets, trigger, resumes, options)."
 }
 
 func (p *c20) Directed() []string { return directedNames() }
@@ -100,16 +100,26 @@ func (p *c20) Floors(tier string) []string {
 			fl = append(fl, "clause.dep.evaluated.by."+k)
 		}
 	}
+	// histories of the inspected flow object (history.go): both kinds ran, through both ways of importing, and were not
+	// vacuous (the runs saved categories / used assets that the inspection from before the history step does not list)
+	fl = append(fl, "history.late-translation.cases", "history.late-translation.flows_translated_by_set", "history.late-translation.flows_translated_by_po",
+		"history.late-translation.dependencies_not_in_earlier_inspection", "clause.dep.template.history:late-translation",
+		"history.change-language.cases", "history.change-language.in_memory_flows_inspected", "history.change-language.categories_not_in_earlier_inspection",
+		"clause.result_category.history:change-language", "clause.waiting_exit.history:change-language")
 	for _, e := range []string{"contact_field_changed", "contact_groups_changed", "input_labels_added", "flow_entered", "session_triggered", "ticket_opened.topic", "ticket_opened.assignee", "msg_created.template", "service_called.classifier", "optin_requested"} {
 		fl = append(fl, "clause.dep.event."+e)
 	}
 	return fl
 }
 
-func (p *c20) scenario(c fw.Case) (*gen.Scenario, *fw.Rand) {
+func (p *c20) scenario(c fw.Case) (*gen.Scenario, *fw.Rand, *history) {
 	r := fw.NewRand(c.Seed, "C20", c.Index)
 	if c.Directed != "" {
-		return findDirected(c.Directed), r
+		scen, hist := findDirected(c.Directed)
+		if hist != nil {
+			hist.r = fw.NewRand(c.Seed, "C20/history", c.Index)
+		}
+		return scen, r, hist
 	}
 	o := gen.ScenOpts{
 		ContactChanges: r.Chance(0.5), QueryGroups: r.Chance(0.3), Localized: r.Chance(0.5), NoHostileTpl: r.Chance(0.5),
@@ -127,25 +137,28 @@ func (p *c20) scenario(c fw.Case) (*gen.Scenario, *fw.Rand) {
 		pl.plantScenario()
 		scen.Notes = append(scen.Notes, fmt.Sprintf("planted %d references", pl.slots))
 	}
-	return scen, r
+	// a stream of its own again: one case in five gives the flow OBJECT a history before it is inspected (history.go)
+	return scen, r, drawHistory(c.Seed, c.Index)
 }
 
 func (p *c20) Run(c fw.Case) fw.Result {
 	res := fw.Result{}
-	scen, r := p.scenario(c)
+	scen, r, hist := p.scenario(c)
 	if scen == nil {
 		res.Discarded = "no such directed case"
 		return res
 	}
-	res.Fingerprint = scen.Fingerprint()
+	res.Fingerprint = scen.Fingerprint() + hist.fingerprint()
 	plantedCensus(scen, &res)
-	rn, err := drive.Load(scen, c.Seed)
+	toLoad := hist.prepare(scen, &res)
+	rn, err := drive.Load(toLoad, c.Seed)
 	if err != nil {
 		res.Discarded = "unloadable: " + errClass(err.Error())
 		return res
 	}
+	hist.afterLoad(rn, &res)
 	restartP := []float64{0, 0.5, 1}[r.Intn(3)]
-	ck := &checker{res: &res, scen: scen, rn: rn, flows: map[string]*flowInfo{}, reported: map[string]bool{}}
+	ck := &checker{res: &res, scen: scen, rn: rn, flows: map[string]*flowInfo{}, reported: map[string]bool{}, hist: hist}
 	// which templates a run evaluates is not an event: the verif-guarded observer of flows/runs tells (process global,
 	// the worker is single threaded; removed again when the case is over)
 	obs := &observed{}
@@ -303,11 +316,61 @@ type flowInfo struct {
 	loc              localization
 	tplIndex         map[string]string // template text → "type.property" holding it (built on demand)
 
+	*inspView // the inspection that is judged
+
+	history    string    // the history of the inspected object ("" = read, then inspected)
+	defJSON    []byte    // the definition (marshaled flow) at inspection time
+	pre        *inspView // history cases: the inspection before the history step
+	fresh      *inspView // history cases, on demand: the inspection of a flow freshly read from defJSON
+	freshTried bool
+}
+
+// inspView is an inspection as the monitor reads it (through its JSON form).
+type inspView struct {
 	results      map[string][]string // key → listed categories
 	waitingExits map[string]bool
 	deps         map[string]bool // type:identity
 	depMissing   map[string]bool
 	inspJSON     string
+	nResults, nExits, nDeps int
+}
+
+func parseInspection(inspJSON []byte) (*inspView, error) {
+	var insp struct {
+		Dependencies []map[string]any `json:"dependencies"`
+		Results      []struct {
+			Key        string   `json:"key"`
+			Categories []string `json:"categories"`
+		} `json:"results"`
+		WaitingExits []string `json:"waiting_exits"`
+	}
+	if err := json.Unmarshal(inspJSON, &insp); err != nil {
+		return nil, err
+	}
+	v := &inspView{results: map[string][]string{}, waitingExits: map[string]bool{}, deps: map[string]bool{}, depMissing: map[string]bool{}, inspJSON: string(inspJSON)}
+	for _, r := range insp.Results {
+		v.results[r.Key] = append(v.results[r.Key], r.Categories...)
+	}
+	for _, e := range insp.WaitingExits {
+		v.waitingExits[e] = true
+	}
+	for _, d := range insp.Dependencies {
+		typ := str(d["type"])
+		idKey := "uuid"
+		switch typ {
+		case "field", "global":
+			idKey = "key"
+		case "user":
+			idKey = "email"
+		}
+		k := typ + ":" + str(d[idKey])
+		v.deps[k] = true
+		if m, _ := d["missing"].(bool); m {
+			v.depMissing[k] = true
+		}
+	}
+	v.nResults, v.nExits, v.nDeps = len(insp.Results), len(insp.WaitingExits), len(insp.Dependencies)
+	return v, nil
 }
 
 type checker struct {
@@ -318,6 +381,7 @@ type checker struct {
 	nonTrivial bool
 	notes      []string
 	reported   map[string]bool // run|dependency already reported by the definition-derived template clause
+	hist       *history
 }
 
 // observed collects what the template observer reports during one engine call.
@@ -369,6 +433,9 @@ func (ck *checker) note(s string) {
 
 func (ck *checker) witness(extra map[string]any) map[string]any {
 	w := map[string]any{"scenario": ck.scen}
+	if hd := ck.hist.describe(); hd != nil {
+		w["history"] = hd
+	}
 	for k, v := range extra {
 		w[k] = v
 	}
@@ -382,7 +449,7 @@ func (ck *checker) flow(f flows.Flow) *flowInfo {
 		return fi
 	}
 	ck.flows[id] = nil
-	fi := &flowInfo{uuid: id, name: f.Name(), lang: string(f.Language()), nodes: map[string]*nodeInfo{}, results: map[string][]string{}, waitingExits: map[string]bool{}, deps: map[string]bool{}, depMissing: map[string]bool{}}
+	fi := &flowInfo{uuid: id, name: f.Name(), lang: string(f.Language()), nodes: map[string]*nodeInfo{}}
 
 	var defJSON, inspJSON []byte
 	var perr any
@@ -395,8 +462,11 @@ func (ck *checker) flow(f flows.Flow) *flowInfo {
 		}()
 		fw.SetDetail("marshal flow " + id)
 		defJSON, _ = json.Marshal(f)
+		// the object whose inspection is judged: the one the runs execute, or (history cases) the in-memory flow it was made from
+		var target flows.Flow
+		target, fi.history = ck.hist.object(f, defJSON, ck.res)
 		fw.SetDetail("Inspect flow " + id)
-		insp := f.Inspect(ck.rn.SA)
+		insp := target.Inspect(ck.rn.SA)
 		inspJSON, _ = json.Marshal(insp)
 	}()
 	if perr != nil {
@@ -421,44 +491,21 @@ func (ck *checker) flow(f flows.Flow) *flowInfo {
 		fi.nodes[n.UUID] = &nodeInfo{uuid: n.UUID, actions: n.Actions, router: n.Router}
 		fi.nodeOrder = append(fi.nodeOrder, n.UUID)
 	}
-	var insp struct {
-		Dependencies []map[string]any `json:"dependencies"`
-		Results      []struct {
-			Key        string   `json:"key"`
-			Categories []string `json:"categories"`
-		} `json:"results"`
-		WaitingExits []string `json:"waiting_exits"`
-	}
-	if err := json.Unmarshal(inspJSON, &insp); err != nil {
+	view, err := parseInspection(inspJSON)
+	if err != nil {
 		ck.res.Violate("inspection|not-json", "the inspection of a flow does not marshal to readable JSON", ck.witness(map[string]any{"flow": id, "inspection": string(inspJSON), "error": err.Error()}))
 		return nil
 	}
-	fi.inspJSON = string(inspJSON)
-	for _, r := range insp.Results {
-		fi.results[r.Key] = append(fi.results[r.Key], r.Categories...)
-	}
-	for _, e := range insp.WaitingExits {
-		fi.waitingExits[e] = true
-	}
-	for _, d := range insp.Dependencies {
-		typ := str(d["type"])
-		idKey := "uuid"
-		switch typ {
-		case "field", "global":
-			idKey = "key"
-		case "user":
-			idKey = "email"
-		}
-		k := typ + ":" + str(d[idKey])
-		fi.deps[k] = true
-		if m, _ := d["missing"].(bool); m {
-			fi.depMissing[k] = true
-		}
+	fi.inspView = view
+	fi.defJSON = defJSON
+	if fi.history != "" {
+		fi.pre = ck.hist.preView[id]
+		ck.res.Count("clause.inspect.history:"+fi.history, 1)
 	}
 	ck.res.Count("clause.inspect", 1)
-	ck.res.Count("inspect.results_listed", int64(len(insp.Results)))
-	ck.res.Count("inspect.waiting_exits_listed", int64(len(insp.WaitingExits)))
-	ck.res.Count("inspect.dependencies_listed", int64(len(insp.Dependencies)))
+	ck.res.Count("inspect.results_listed", int64(view.nResults))
+	ck.res.Count("inspect.waiting_exits_listed", int64(view.nExits))
+	ck.res.Count("inspect.dependencies_listed", int64(view.nDeps))
 	ck.flows[id] = fi
 	return fi
 }
@@ -633,8 +680,11 @@ func (ck *checker) resultStored(sv *sprintView, run flows.Run, fi *flowInfo, key
 	}
 	ck.note("result " + key + " by " + who)
 	cats, listed := fi.results[key]
+	if fi.history != "" {
+		res.Count("clause.result_key.history:"+fi.history, 1)
+	}
 	if !listed {
-		res.Violate("coverage-gap|"+who+"|result-undeclared",
+		res.Violate(ck.historySig(fi, "coverage-gap|"+who+"|result-undeclared", "result-undeclared", func(v *inspView) bool { _, ok := v.results[key]; return ok }),
 			fmt.Sprintf("a run of flow %q stored result %q (key %s, saved by %s) but the flow's inspection lists no result with that key", fi.name, name, key, who),
 			ck.witness(map[string]any{"call_index": sv.rec.Index, "entry": sv.entry, "flow": fi.uuid, "run": string(run.UUID()), "result_key": key, "result_name": name, "category": category,
 				"node_uuid": nodeUUID, "saved_by": who, "observed_via": how, "inspection": json.RawMessage(fi.inspJSON)}))
@@ -649,8 +699,15 @@ func (ck *checker) resultStored(sv *sprintView, run flows.Run, fi *flowInfo, key
 		return
 	}
 	res.Count("clause.result_category", 1)
+	if fi.history != "" {
+		res.Count("clause.result_category.history:"+fi.history, 1)
+		// non-vacuous for the history: the inspection from before the history step would not have covered this
+		if fi.pre != nil && !containsFold(fi.pre.results[key], category) {
+			res.Count("history."+fi.history+".categories_not_in_earlier_inspection", 1)
+		}
+	}
 	if !containsFold(cats, category) {
-		res.Violate("coverage-gap|"+who+"|result-category-unlisted",
+		res.Violate(ck.historySig(fi, "coverage-gap|"+who+"|result-category-unlisted", "result-category-unlisted", func(v *inspView) bool { cs, ok := v.results[key]; return ok && (len(cs) == 0 || containsFold(cs, category)) }),
 			fmt.Sprintf("a run of flow %q stored result %s with category %q but the inspection lists categories %v", fi.name, key, category, cats),
 			ck.witness(map[string]any{"call_index": sv.rec.Index, "entry": sv.entry, "flow": fi.uuid, "run": string(run.UUID()), "result_key": key, "category": category, "listed": cats,
 				"node_uuid": nodeUUID, "saved_by": who, "observed_via": how, "inspection": json.RawMessage(fi.inspJSON)}))
@@ -718,8 +775,11 @@ func (ck *checker) checkWaitExit(sv *sprintView, run flows.Run, fi *flowInfo, be
 	res.Count("clause.waiting_exit.resume_"+sv.rec.ResumeType, 1)
 	res.Count("clause.waiting_exit.wait_"+wtype, 1)
 	ck.note("left " + wtype + " wait by " + sv.rec.ResumeType)
+	if fi.history != "" {
+		res.Count("clause.waiting_exit.history:"+fi.history, 1)
+	}
 	if !fi.waitingExits[exit] {
-		res.Violate("coverage-gap|router:"+rtype+"/wait:"+wtype+"|waiting-exit-undeclared|resume:"+sv.rec.ResumeType,
+		res.Violate(ck.historySig(fi, "coverage-gap|router:"+rtype+"/wait:"+wtype+"|waiting-exit-undeclared|resume:"+sv.rec.ResumeType, "waiting-exit-undeclared", func(v *inspView) bool { return v.waitingExits[exit] }),
 			fmt.Sprintf("a %s resume left the %s wait of flow %q through exit %s which is not among the inspection's waiting_exits", sv.rec.ResumeType, wtype, fi.name, exit),
 			ck.witness(map[string]any{"call_index": sv.rec.Index, "entry": sv.entry, "flow": fi.uuid, "run": string(run.UUID()), "node_uuid": string(step.NodeUUID()), "exit_uuid": exit,
 				"inspection": json.RawMessage(fi.inspJSON)}))
@@ -736,6 +796,12 @@ func (ck *checker) demand(sv *sprintView, run flows.Run, fi *flowInfo, r ref, cu
 	res.Count("clause.dep."+source+"."+r.Kind, 1)
 	res.Count("clause.dep.by."+culprit+"."+r.Kind, 1)
 	k := r.key()
+	if fi.history != "" {
+		res.Count("clause.dep."+source+".history:"+fi.history, 1)
+		if fi.pre != nil && !fi.pre.deps[k] {
+			res.Count("history."+fi.history+".dependencies_not_in_earlier_inspection", 1)
+		}
+	}
 	if fi.deps[k] {
 		if fi.depMissing[k] {
 			res.Count("dep.missing_asset_listed", 1)
@@ -747,7 +813,7 @@ func (ck *checker) demand(sv *sprintView, run flows.Run, fi *flowInfo, r ref, cu
 		what = "template-reference-undeclared:" + r.Kind
 		ck.reported[string(run.UUID())+"|"+k] = true
 	}
-	res.Violate("coverage-gap|"+culprit+"|"+what,
+	res.Violate(ck.historySig(fi, "coverage-gap|"+culprit+"|"+what, "dependency-undeclared", func(v *inspView) bool { return v.deps[k] }),
 		fmt.Sprintf("a run of flow %q executed %s which names %s %q (%s) but the inspection's dependencies do not list it", fi.name, culprit, r.Kind, r.ID, r.Via),
 		ck.witness(map[string]any{"call_index": sv.rec.Index, "entry": sv.entry, "flow": fi.uuid, "run": string(run.UUID()), "node_uuid": nodeUUID, "culprit": culprit,
 			"dependency": map[string]string{"type": r.Kind, "identity": r.ID, "via": r.Via}, "observed_via": source, "inspection": json.RawMessage(fi.inspJSON)}))
@@ -824,6 +890,12 @@ func (ck *checker) checkEvaluated(sv *sprintView, run flows.Run, fi *flowInfo, s
 				res.Count("clause.dep.evaluated.planted_reference", 1)
 				res.Seen("evaluated_properties_with_planted_reference", holder)
 			}
+			if fi.history != "" {
+				res.Count("clause.dep.evaluated.history:"+fi.history, 1)
+				if fi.pre != nil && !fi.pre.deps[k] {
+					res.Count("history."+fi.history+".dependencies_not_in_earlier_inspection", 1)
+				}
+			}
 			if fi.deps[k] {
 				if fi.depMissing[k] {
 					res.Count("dep.missing_asset_listed", 1)
@@ -834,7 +906,7 @@ func (ck *checker) checkEvaluated(sv *sprintView, run flows.Run, fi *flowInfo, s
 				res.Count("evaluated.undeclared_already_reported_by_definition_clause", 1)
 				continue
 			}
-			res.Violate("coverage-gap|"+holder+"|evaluated-template-reference-undeclared:"+r.Kind,
+			res.Violate(ck.historySig(fi, "coverage-gap|"+holder+"|evaluated-template-reference-undeclared:"+r.Kind, "dependency-undeclared", func(v *inspView) bool { return v.deps[k] }),
 				fmt.Sprintf("a run of flow %q evaluated the template %q (held by %s) which names %s %q but the inspection's dependencies do not list it", fi.name, o.tpl, holder, r.Kind, r.ID),
 				ck.witness(map[string]any{"call_index": sv.rec.Index, "entry": sv.entry, "flow": fi.uuid, "run": id, "template": o.tpl, "held_by": holder,
 					"dependency": map[string]string{"type": r.Kind, "identity": r.ID, "via": "evaluated template"}, "observed_via": "template observer", "inspection": json.RawMessage(fi.inspJSON)}))
